@@ -20,6 +20,7 @@ nor a UFL expression (non-numeric-result), a KeyError for an Index although ever
 """
 
 import itertools
+import re
 import os
 import random
 import warnings
@@ -58,7 +59,10 @@ ASSUMPTIONS = [
     "a terminal mapped to a non-callable value is the constant function with that value (its derivatives are 0)",
     "inner conjugates its second, outer its first argument; A**2 of a tensor is inner(A, A); principal branches; restrictions, avg of a "
     "continuous mapped function equal the function, jump is 0",
-    "an exception raised by evaluation is 'rejected', never 'held' (operators without evaluate, math domain errors, unmapped terminals)",
+    "an exception raised by evaluation is 'rejected', never 'held' (operators without evaluate, math domain errors, unmapped terminals), "
+    "except where the mathematical value is defined, every terminal is mapped to a value of its own shape and the evaluator itself indexes one of "
+    "those values (or the point) with a component that does not belong to it (TypeError 'not subscriptable', IndexError) or trips over a "
+    "missing name: that is keyed raises-on-defined-value",
     "results that are UFL scalar constants (IntValue/FloatValue/Zero returned by PermutationSymbol.evaluate) count as their numeric value",
     "a KeyError for an Index object while every free index of the expression has a value is not a refusal but a lost binding of the "
     "evaluator's own index stack (violation index-value-lost); a returned object that is neither a number nor a UFL expression is a violation",
@@ -207,6 +211,17 @@ def index_values(pool, fi_names, vals):
     return iv
 
 
+_INDEXING = re.compile(r"not subscriptable|invalid index to scalar|too many indices|index out of range|is out of bounds")
+
+
+def misindexed(ex):
+    """The evaluator indexed a mapped value (or the point) with a component that does not belong to it, or ran into a missing
+    name: never a refusal of the input (refusals are ValueError / ZeroDivisionError / OverflowError / unordered complex numbers)."""
+    if isinstance(ex, AttributeError | UnboundLocalError | NameError):
+        return True
+    return isinstance(ex, TypeError | IndexError) and bool(_INDEXING.search(str(ex)))
+
+
 def run_event(kind, expr, expanded, pool, xarg, mapping, comp, fi_names, vals):
     """One real UFL evaluation.  Returns the raw result or raises."""
     with warnings.catch_warnings():
@@ -307,6 +322,11 @@ def observe(ctx, recipe, expr, pool, points, mapping, rng, kinds, record=True, m
                             out.append(("rejected", {"kind": kind, "exc": type(ex).__name__, "msg": str(ex)[:80]}))
                         continue
                     except Exception as ex:
+                        if kind != "direct" and J.state == "ok" and misindexed(ex):
+                            # every terminal is mapped to a value of its own shape and the mathematical value exists
+                            out.append(("misindexed", {"kind": kind, "x": x, "xform": variant, "comp": comp, "index_values": dict(zip(fi_names, vals)),
+                                                       "got": f"{type(ex).__name__}({str(ex)[:60]})", "expected": None, "err": float("nan"), "point": pi}))
+                            continue
                         out.append(("rejected", {"kind": kind, "exc": type(ex).__name__, "msg": str(ex)[:80]}))
                         outcome[(kind, pi, comp, vals)] = ("rejected", f"{type(ex).__name__}: {str(ex)[:80]}", x, variant)
                         continue
@@ -398,7 +418,7 @@ def localise(ctx, recipe, pool, bad, mapping, rng):
             continue
         kinds = ["whole"] if whole else ([bad["kind"]] if not sub.fi else ["evaluate"])
         res, _ = observe(ctx, sub, e, pool, point, mapping, rng, kinds, record=False)
-        wrong = [r for r in res if r[0] in ("disagree", "whole-disagree", "nonnumeric", "lostindex")]
+        wrong = [r for r in res if r[0] in ("disagree", "whole-disagree", "nonnumeric", "lostindex", "misindexed")]
         if wrong:
             return sub, e, wrong[0][1]
     return None, None, None
@@ -529,7 +549,7 @@ def case(ctx, i, rng):
             ctx.covered("symbolic_results", info["type"])
         if v.startswith("whole-"):
             ctx.covered("whole_value_outcomes", v + ":" + type(expr).__name__)
-    bad = [info for v, info in res if v in ("disagree", "whole-disagree")] or [info for v, info in res if v in ("nonnumeric", "lostindex", "callraises")]
+    bad = [info for v, info in res if v in ("disagree", "whole-disagree")] or [info for v, info in res if v in ("nonnumeric", "lostindex", "misindexed", "callraises")]
     if bad:
         ctx.count("violated")
         b = bad[0]
@@ -550,7 +570,7 @@ def case(ctx, i, rng):
                 pm = pool.mapping(no_derivatives=False, python_only=True)
                 kind = b["kind"] if not whole else "whole"
                 r2, _ = observe(ctx, sub, sube, pool, [(b["x"], b.get("xform", "tuple"))], pm, rng, [kind if not sub.fi else "evaluate"], record=False)
-                if r2 and not any(v in ("disagree", "whole-disagree", "nonnumeric", "lostindex") for v, _ in r2):
+                if r2 and not any(v in ("disagree", "whole-disagree", "nonnumeric", "lostindex", "misindexed") for v, _ in r2):
                     suffix = "/numpy-typed-mapping-value"
                     finer = numpy_culprit(sube, xarg_of(b["x"], b.get("xform", "tuple")), mapping, pm)
                     if finer is not None:
@@ -559,12 +579,14 @@ def case(ctx, i, rng):
             suffix += "/index-also-bound-inside-operand"
         nonnum = winfo.get("expected") is None
         lost = nonnum and str(winfo["got"]).startswith("KeyError(")
+        misx = nonnum and not lost and "evaluate_value" not in winfo and re.match(r"[A-Za-z]+Error\(", str(winfo["got"])) is not None
         craise = nonnum and "evaluate_value" in winfo
-        key = f"C24/{('call-raises-where-evaluate-returns' if craise else 'index-value-lost' if lost else 'non-numeric-result') if nonnum else ('whole-value' if whole else 'wrong-value')}/{cls}{suffix}"
+        key = f"C24/{('call-raises-where-evaluate-returns' if craise else 'index-value-lost' if lost else 'raises-on-defined-value' if misx else 'non-numeric-result') if nonnum else ('whole-value' if whole else 'wrong-value')}/{cls}{suffix}"
         ctx.violation(
             key,
             (f"call event: calling a {type(expr).__name__} expression raises {winfo['got']} although evaluate() of the preprocessed expression returns the right value {winfo['evaluate_value']!r} at x={b['x']}" if craise else
              f"{b['kind']} event: evaluation of {cls} loses the value of an index it was given: {winfo['got']} at x={b['x']}" if lost else
+             f"{b['kind']} event: evaluation of {cls} raises {winfo['got']} for component {winfo.get('comp')!r} at x={b['x']} although every terminal is mapped to a value of its own shape and the mathematical value is defined" if misx else
              f"{b['kind']} event: {cls} evaluates to the non-numeric object {winfo['got']} at x={b['x']}" if nonnum else
              f"{b['kind']} event: {cls} evaluates to {winfo['got']!r}, mathematical value {complex(winfo['expected'])!r} (|diff| {winfo['err']:.3g}) at x={b['x']}"),
             {"culprit_recipe": D.show(sub, 600), "culprit_expr": str(sube)[:600], "whole_recipe": D.show(recipe, 900), "expr": str(expr)[:900], "component": repr(winfo.get("comp")),
